@@ -13,6 +13,7 @@ import GrcovModel.Drv.C03Docs
 import GrcovModel.Drv.C14Gcno
 import GrcovModel.Drv.MainGlue
 import GrcovModel.Drv.C03JsonBytes
+import GrcovModel.Drv.C05Cli
 open Grcov.Drv
 
 def step (line : String) : String :=
@@ -59,6 +60,7 @@ def step (line : String) : String :=
   | "c03.json.covdir" :: args => handleJsonCovdir args
   | "c03.json.ade" :: args => handleJsonAde args
   | "c20.llvmtree.find" :: args => handleLlvmTreeFind args
+  | "cli.run" :: args => handleCliRun args
   | _ => "bad-op"
 
 partial def loop (h : IO.FS.Stream) (out : IO.FS.Stream) : IO Unit := do
